@@ -107,7 +107,9 @@ def tr_item(op, av, state, flags, is_bytes):
         if add_flags or del_flags:
             raise Unsupported("inline flags")
         inner = tr_seq(list(p), state, flags, is_bytes)
-        return inner if group is None else f"(.group {group} {inner})"
+        # capturing groups do not change what is matched or how the search proceeds; they are dropped so that repeated
+        # sub-patterns are syntactically identical terms (the driver compares match positions, not captures)
+        return inner
     if op is K.BRANCH:
         _, alts = av
         ts = [tr_seq(list(a), state, flags, is_bytes) for a in alts]
